@@ -82,3 +82,9 @@ def set_or(ex, st, a, b):
 def as_dict(ex, st, v):
     from pyvc.values import unbox as _unbox
     return _unbox(Spec("dict", (Spec("val"), Spec("val"))), box(v, st), st, facts=False)
+
+
+@spec_function()
+def distinct(ex, st, s):
+    """the sequence has no duplicates"""
+    return S_bool(Q.Distinct(as_seq(s, st)))
